@@ -263,6 +263,7 @@ Proof.
   - destruct (find_down _ _ _); auto. apply handleClose_ev.
   - destruct (negb _); auto. destruct (connection s); auto. destruct (find_user _ _); auto. apply evall_ret.
   - destruct (find_user _ _); auto. destruct (nth_error _ _); auto. apply evall_ret.
+  - destruct (_ || _ || _); auto. unfold loop_end. cbn [k_chan set_timers set_pending]. destruct (k_chan s); [exact Logic.I|apply evall_ret].
 Qed.
 
 Lemma step_ev s o s' ev : Inv s -> contract s o = true -> step s o = Ok s' ev -> Forall c500 ev.
